@@ -109,3 +109,39 @@ Theorem C01_missing_collection :
 Proof. exact find_all_missing. Qed.
 Print Assumptions C01_missing_collection.
 
+
+(* ---- operation level: FindAll as the harness observes it (rendered result of [step]), after any history of the domain ---- *)
+From Clover Require Import HistDom HistoryProofs OpQueryProofs.
+Theorem C01_history_find_all : forall ops q mode,
+  hist_dom empty_db (ops ++ [OFindAll q mode]) ->
+  let h := snd (run_ops empty_db ops) in
+  closed h = false ->
+  exists db, wf_db db /\ R db (durable h) /\
+    match normalize_query (mk_query q) with
+    | None => fst (step h (OFindAll q mode)) = T_err EOther
+    | Some nq =>
+        match assoc (nq_coll nq) db with
+        | None => fst (step h (OFindAll q mode)) = T_err ECollNotExist
+        | Some sc =>
+            exists res,
+              fst (step h (OFindAll q mode)) = T_ok (T_of_docs (nq_sort nq) mode res) /\
+              find_ok' (map snd (sc_docs sc)) nq res
+        end
+    end /\
+    snd (step h (OFindAll q mode)) = h.
+Proof. exact history_find_all. Qed.
+Print Assumptions C01_history_find_all.
+
+Theorem C01_history_find_all_exact : forall ops q mode nq,
+  hist_dom empty_db (ops ++ [OFindAll q mode]) ->
+  let h := snd (run_ops empty_db ops) in
+  closed h = false ->
+  normalize_query (mk_query q) = Some nq ->
+  nq_sort nq = [] -> nq_skip nq = 0 -> nq_limit nq < 0 ->
+  exists db, wf_db db /\ R db (durable h) /\
+    forall sc, assoc (nq_coll nq) db = Some sc ->
+      exists res,
+        fst (step h (OFindAll q mode)) = T_ok (T_of_docs [] mode res) /\
+        Permutation res (filter (sat_opt (nq_crit nq)) (map snd (sc_docs sc))).
+Proof. exact history_find_all_exact. Qed.
+Print Assumptions C01_history_find_all_exact.
